@@ -80,6 +80,9 @@ class LibMixin:
         v = pos[0]
         if v.ty.kind == "tuple":
             return v
+        if v.ty.kind == "list" and v.ty.args[0].kind != "unknown":
+            self.note("tuple(list) modelled as the (immutable) sequence of the same elements")
+            return v
         self.note("tuple(list) abstracted")
         return self.opaque("tuple", [v])
 
